@@ -15,6 +15,9 @@ echo "demo: $demo pkg: $pkg"
 (cd "$wt" && go test -count=1 -run 'Seed|seed|Demo|demo' "$pkg" > /tmp/seed_with.txt 2>&1; echo "with change: rc=$?" )
 (cd "$wt" && git apply -R "$dst/patch.diff" && go test -count=1 -run 'Seed|seed|Demo|demo' "$pkg" > /tmp/seed_without.txt 2>&1; echo "without change: rc=$?"; git apply "$dst/patch.diff")
 (cd "$wt" && go build ./... >/dev/null 2>&1; echo "build rc=$?")
+# the existing tests of every touched package still pass with the change (demo skipped)
+pkgs=$(grep '^+++ b/' "$dst/patch.diff" | sed 's#^+++ b/##' | xargs -n1 dirname | sort -u | sed 's#^#./#')
+(cd "$wt" && go test -count=1 -skip 'TestSeed|SeedDemo' $pkgs > /tmp/seed_pkgtests.txt 2>&1; echo "existing tests of touched packages ($pkgs): rc=$?")
 cd /verif
 for c in "$@"; do
   VERIF_REPO="$wt" ./check "$c" 2>&1 | grep -E "^(PASS|FAIL|VIOLATION|INFRA)" | cut -c1-160 | head -3
